@@ -67,6 +67,22 @@ def build_ops(rng, spec):
                         queries=[dict(kind='moment', k=2, rewards=[['UnfoldedSFS', i], ['UnfoldedSFS', j]], center=True),
                                  dict(kind='moment', k=1, rewards=[['UnfoldedSFS', i]]), dict(kind='moment', k=1, rewards=[['UnfoldedSFS', j]])],
                         combine=lambda mq: mq[0][0], tol='higher', scale=lambda mq: abs(mq[1][0] * mq[2][0])))
+    # the scalar entry points get_cov(i, j) / get_corr(i, j) (observe_at of the property) on the spectrum itself and on the spectrum of ONE
+    # deme (sfs.demes[p]: a distribution that carries a non-default reward, which every bin has to be combined with)
+    if len(bins) >= 2:
+        def sfs_d(i, p=None):
+            return ['Combined', [['Deme', p] if p is not None else ['Unit'], ['UnfoldedSFS', i]]]
+        pops = [p for p, _ in spec['n_items']] if len(spec['n_items']) >= 2 and not spec.get('start_time') else []
+        for pth, p in [('sfs', None)] + [(f'sfs.demes[{p}]', p) for p in pops[:1]]:
+            for (i, j) in {tuple(rng.sample(bins, 2)), (bins[0], bins[0]), (bins[-1], bins[0])}:
+                ops.append(dict(py={'kind': 'call', 'path': pth, 'method': 'get_cov', 'args': [i, j]},
+                                queries=[dict(kind='moment', k=2, rewards=[sfs_d(i, p), sfs_d(j, p)], center=True),
+                                         dict(kind='moment', k=1, rewards=[sfs_d(i, p)]), dict(kind='moment', k=1, rewards=[sfs_d(j, p)])],
+                                combine=lambda mq: mq[0][0], tol='higher', scale=lambda mq: max(abs(mq[1][0] * mq[2][0]), 1e-3)))
+        i, j = bins[0], bins[-1]
+        ops.append(dict(py={'kind': 'call', 'path': 'sfs', 'method': 'get_corr', 'args': [i, j]},
+                        queries=[dict(kind='moment', k=2, rewards=[sfs_d(a, None), sfs_d(b, None)], center=True) for (a, b) in ((i, j), (i, i), (j, j))],
+                        combine=lambda mq: mq[0][0] / math.sqrt(mq[1][0] * mq[2][0]), tol='corr'))
     return ops
 
 
